@@ -27,7 +27,8 @@ class C20(Check):
     rule = ("files: type in {none, rel, exec, dyn, core} x 0-3 program headers (type LOAD / other; vaddr from a set producing "
             "disjoint, adjacent, overlapping, nested and equal ranges; file size 0-12; memory size =, >, < file size, 0) x "
             "0-3 sections (PROGBITS / NOBITS / other; executable or not; address 0 or not; size 0 or not; disjoint, "
-            "adjacent, overlapping); exhaustive over single headers/sections and pairs from the value sets, sampled for "
+            "adjacent, overlapping); physical addresses equal to / different from the virtual ones (zero, swapped, colliding, "
+            "far away); exhaustive over single headers/sections and pairs from the value sets, sampled for "
             "triples; lookups at every block boundary +-1; judged: must-reject classes are rejected, and a successful "
             "load yields exactly the expected blocks, entry point and lookups; non-trivial = file of an accepted type with "
             ">= 1 loadable segment or code section; distinct by file description")
